@@ -103,7 +103,7 @@ impl Prop for C17 {
     }
     fn rule(&self) -> String {
         "cases: corpus files, generated Annex A programs under full trivia (comments and kept directives between tokens), token-level mutants of both (accepted and rejected), programs with \
-         sequential / nested `begin_keywords regions, library maps. Main band: memo capacities 1024, 256, 128 for every input and 64, 32 for inputs <= 600 bytes; small band: capacities \
+         sequential / nested `begin_keywords regions (also in a compact form with one-line modules and compilation-unit items such as a lone timeunit between the directives, every capacity down to 1), library maps. Main band: memo capacities 1024, 256, 128 for every input and 64, 32 for inputs <= 600 bytes; small band: capacities \
          13, 8, 5, 3, 2, 1 for inputs <= 300 bytes. Oracle: the raw sv_parser / lib_parser result (acceptance and the whole tree by ==) is identical to the result with an unbounded table, \
          with the production memo key. Work is bounded deterministically by a memo-insert budget (300 x the unbounded run + 50 000 inserts); a run that exhausts it is tallied as inconclusive. A \
          divergence is attributed to listed finding K3 only if the unbounded table accepts the input and capacity c and unbounded agree once the recursion flags are part of the key; otherwise it is a violation. Non-trivial: inserts > capacity \
@@ -122,6 +122,7 @@ impl Prop for C17 {
             Campaign { name: "main", kind: Kind::Random { quick: 2500, thorough: 40000 }, tape_len: 900 },
             Campaign { name: "small", kind: Kind::Random { quick: 2500, thorough: 40000 }, tape_len: 260 },
             Campaign { name: "regions", kind: Kind::Random { quick: 1500, thorough: 20000 }, tape_len: 160 },
+            Campaign { name: "regions-small", kind: Kind::Random { quick: 10000, thorough: 100000 }, tape_len: 160 },
         ]
     }
     fn run(&self, ctx: &Ctx, campaign: &str, t: &mut Tape, st: &mut Stats) -> Result<(), Fail> {
@@ -167,6 +168,21 @@ impl Prop for C17 {
                     caps.extend_from_slice(MID_CAPS);
                 }
                 check_memo(ctx, g, &text, &caps, st, from)?;
+            }
+            "regions-small" => {
+                // one-line modules and compilation-unit items between `begin_keywords / `end_keywords: small enough for
+                // every capacity down to 1, where a directive's white space is certainly evaluated more than once
+                let mut text = c13::gen_regions_compact_text(t);
+                if t.chance(1, 5) {
+                    text = mutate::mutate_text(&text, t);
+                }
+                if text.len() > 600 {
+                    st.skip("input longer than the band's size limit");
+                    return Ok(());
+                }
+                let mut caps: Vec<usize> = SMALL_CAPS.to_vec();
+                caps.extend_from_slice(MID_CAPS);
+                check_memo(ctx, Grammar::Sv, &text, &caps, st, "compact keyword regions")?;
             }
             _ => {
                 let text = region_program(t);
